@@ -33,6 +33,9 @@ fn pool() -> Vec<Vec<PathControlPoint>> {
         vec![cp(0.0, 0.0, p), cp(10.0, 10.0, None), cp(20.0, 20.0, None)],
         vec![cp(0.0, 0.0, None), cp(5.0, 5.0, None)],
         vec![cp(0.0, 0.0, l), cp(7.0, 0.0, None), cp(7.0, 0.0, None)],
+        // a Bezier with more control points than one Catmull span yields path points (scratch buffers of
+        // different sizes must not be assumed equal)
+        (0..130).map(|i| cp(i as f32 * 3.0, ((i * 37) % 50) as f32, if i == 0 { b } else { None })).collect(),
     ]
 }
 
@@ -199,7 +202,7 @@ pub fn run(ctx: &mut Ctx) {
             }
         }
         ctx.report.exhaustive = Some(complete);
-        ctx.note(format!("exhaustive part: all histories of length <= {max_len} over {} operations on a pool of {} control-point lists (empty, single point, each type, multi-segment, long-then-short Bezier) and 7 lengths (none, three positive, zero, negative, below epsilon)", ops.len(), pool.len()));
+        ctx.note(format!("exhaustive part: all histories of length <= {max_len} over {} operations on a pool of {} control-point lists (empty, single point, each type, multi-segment, long-then-short Bezier, a 130-point Bezier) and 7 lengths (none, three positive, zero, negative, below epsilon)", ops.len(), pool.len()));
     }
     // random long histories, with random extra pool entries
     let m = ctx.n(10_000, 1_000_000);
